@@ -29,25 +29,25 @@ type ufInfo struct {
 }
 
 type Engine struct {
-	fset     *token.FileSet
-	prog     *ssa.Program
-	pkgs     map[string]*PkgInfo // by path
-	cs       *ContractSet
-	regions  map[string]regionInfo
-	typeTags map[string]int
-	tagTypes map[int]types.Type
-	closures map[Term]Val
-	boxes    map[Term]Val
-	ufs      map[string]ufInfo
-	texts    map[*ssa.Function]map[ssa.Value]string
-	repo     string
-	fromMirror []string
-	axioms   []*Lemma
-	usedAxioms map[string]string
-	prop     string
-	regionRef map[string]string // leaf region -> "ref" | "map:<key sort>" when it stores references
-	globalIDs map[string]int
-	deadReturns []string
+	fset         *token.FileSet
+	prog         *ssa.Program
+	pkgs         map[string]*PkgInfo // by path
+	cs           *ContractSet
+	regions      map[string]regionInfo
+	typeTags     map[string]int
+	tagTypes     map[int]types.Type
+	closures     map[Term]Val
+	boxes        map[Term]Val
+	ufs          map[string]ufInfo
+	texts        map[*ssa.Function]map[ssa.Value]string
+	repo         string
+	fromMirror   []string
+	axioms       []*Lemma
+	usedAxioms   map[string]string
+	prop         string
+	regionRef    map[string]string // leaf region -> "ref" | "map:<key sort>" when it stores references
+	globalIDs    map[string]int
+	deadReturns  []string
 	overlayFiles map[string]string // mutant overlays (path -> replacement file), reused when replaying
 }
 
